@@ -543,6 +543,57 @@ class _FilterPolicy(BasePolicy):
         from ..terms import conjuncts
 
         fs = self.fs
+        # every entry of the candidate rows lies within the box on this edge: max(U) <= min(hi) and min(U) >= max(lo)
+        # (or the element-wise all(U <= hi) and all(U >= lo)); a flag local holding the conjunction is expanded
+        atoms = []
+        for c, pol in conjuncts(test, polarity):
+            if isinstance(c, ast.Name) and pol:
+                from .common import deref_expr
+
+                d = deref_expr(fs.prog, fs.fn, c)
+                if d is not c and not isinstance(d, ast.Name):
+                    atoms.extend(conjuncts(d, True))
+                    continue
+            atoms.append((c, pol))
+
+        def _ext(e, which):
+            """canonical array of ``A.max()`` / ``np.max(A)`` / ``np.amax(A)`` (which = 'max') and the same for min"""
+            if isinstance(e, ast.Call) and isinstance(e.func, ast.Attribute) and e.func.attr == which and not e.args and not e.keywords:
+                return canon(e.func.value)
+            if isinstance(e, ast.Call) and call_name(e) in (f"np.{which}", f"np.a{which}", f"np.nan{which}"[:0] or f"np.{which}") and len(e.args) == 1 and not e.keywords:
+                return canon(e.args[0])
+            return None
+
+        upper_ok, lower_ok = set(), set()
+        for c, pol in atoms:
+            if not (pol and isinstance(c, ast.Compare) and len(c.ops) == 1):
+                continue
+            l, r, op = c.left, c.comparators[0], type(c.ops[0])
+            if op in (ast.GtE, ast.Gt):
+                l, r, op = r, l, (ast.LtE if op is ast.GtE else ast.Lt)
+            if op not in (ast.LtE, ast.Lt):
+                continue
+            # l <= r
+            a, b = _ext(l, "max"), _ext(r, "min")
+            if a is not None and b is not None:
+                if b == fs.p_hi:
+                    upper_ok.add(a)
+                if a == fs.p_lo:
+                    lower_ok.add(b)
+        for c, pol in atoms:
+            if pol and isinstance(c, ast.Call) and call_name(c) == "np.all" and len(c.args) == 1 and isinstance(c.args[0], ast.Compare) and len(c.args[0].ops) == 1:
+                cm = c.args[0]
+                l, r, op = cm.left, cm.comparators[0], type(cm.ops[0])
+                if op in (ast.GtE, ast.Gt):
+                    l, r, op = r, l, ast.LtE
+                if op in (ast.LtE, ast.Lt):
+                    if canon(r) == fs.p_hi:
+                        upper_ok.add(canon(l))
+                    if canon(l) == fs.p_lo:
+                        lower_ok.add(canon(r))
+        for arr in upper_ok & lower_ok:
+            if arr == fs.p_rows or arr in fs.chain:
+                state[arr] = state.get(arr, EMPTY) | {"BOX"}
         for c, pol in conjuncts(test, polarity):
             # the constraint callable is absent on this edge
             if isinstance(c, ast.Compare) and len(c.ops) == 1 and canon(c.left) == fs.p_cons and isinstance(c.comparators[0], ast.Constant) and c.comparators[0].value is None:
